@@ -241,6 +241,11 @@ func Execute(t *testing.T, p *PropertyDef, seed uint64, stratum string, gen, sch
 			}()
 			v := p.Run(run, stratum)
 			res.Violation = v
+			if v != nil && os.Getenv("SIM_STACKS_ON_VIOLATION") == "1" {
+				// development aid: where every goroutine of the bubble stands when the oracle fired
+				buf := make([]byte, 4<<20)
+				fmt.Fprintf(os.Stderr, "STACKS AT VIOLATION %s\n%s\n", v.Rule, buf[:runtime.Stack(buf, true)])
+			}
 			res.VirtualNs = int64(time.Since(run.start))
 			run.finished = true
 		})
